@@ -22,6 +22,9 @@ def run(tier, seed):
     items = [(C.cfg_set('C20'), None, C.replay_cfg_set), (C.cfg_set_nonstr('C20'),), (C.cfg_add('C20'),), (C.cfg_check('C20'),),
              (C.cfg_as_dict('C20'), C.WIT_F20, C.replay_as_dict), (C.update_config_object('C20'),)] + [(c,) for c in C.cfg_load('C20')] + \
         [(C.get_config_path_c('C20'), None, C.replay_get_config_path)]
+    # a run over several cases hands every keyword (config_option, config, config_path, ...) to each case
+    from contracts import fn_main as FM
+    items += [(FM.run_mp_proc('C20'), None, FM.replay_mp_kwargs)]
     run_contracts(pack, items)
     C.bounded_save_load(pack, 'C20')
     from contracts.packutil import native_guard
